@@ -12,6 +12,8 @@ mod io;
 mod plan;
 mod run;
 mod scen;
+mod scen2;
+mod scen3;
 mod util;
 mod world;
 
@@ -25,6 +27,16 @@ use world::{Profile, Stats, Violation, World};
 
 thread_local! {
     static PANIC_INFO: RefCell<Option<(String, String)>> = const { RefCell::new(None) };
+    /// replay mode: the recorded I/O-schedule tape of a twin scenario
+    static REPLAY_SCHED: RefCell<Option<Vec<u32>>> = const { RefCell::new(None) };
+}
+
+/// The schedule tape of a twin run: replayed if a recording is present, else generated.
+pub fn make_sched(seed: u64) -> Tape {
+    match REPLAY_SCHED.with(|r| r.borrow().clone()) {
+        Some(vals) => Tape::replay(vals, 0),
+        None => Tape::generate(mix(seed, 0x5CED)),
+    }
 }
 
 #[derive(Copy, Clone, Debug, PartialEq, Eq, PartialOrd, Ord)]
@@ -92,6 +104,7 @@ pub struct RunResult {
     pub violations: Vec<Violation>,
     pub stats: Stats,
     pub tape: Vec<u32>,
+    pub tape2: Vec<u32>,
     pub entity_seed: u64,
     pub trace: Vec<String>,
     pub trace_hash: u64,
@@ -116,8 +129,9 @@ fn install_panic_hook() {
 
 /// Execute one run. `extra` is a scenario-specific argument (e.g. an index into an enumerated
 /// space) that is part of the replay file.
-pub fn run_one(scn: Scenario, tape: Tape, seed: u64, extra: u64, trace_on: bool) -> RunResult {
+pub fn run_one(scn: Scenario, tape: Tape, sched: Option<Vec<u32>>, seed: u64, extra: u64, trace_on: bool) -> RunResult {
     clock::reset();
+    REPLAY_SCHED.with(|r| *r.borrow_mut() = sched);
     let mut tape = tape;
     let profile = match scn {
         Scenario::Program(p) => p,
@@ -133,6 +147,10 @@ pub fn run_one(scn: Scenario, tape: Tape, seed: u64, extra: u64, trace_on: bool)
     };
     let mut w = World::new(tape, cfg, seed);
     w.trace_on = trace_on;
+    if !matches!(scn, Scenario::Program(_)) {
+        // enumerated cases are distinct by construction: the case index is part of the identity
+        w.trace_hash = mix(w.trace_hash, extra);
+    }
     let cfg_summary = format!(
         "rx={} tx={} keepalive={} expiry={} downgrade={} will={} auth={} id={:?} burn={}",
         w.cfg.rx_len,
@@ -187,6 +205,7 @@ pub fn run_one(scn: Scenario, tape: Tape, seed: u64, extra: u64, trace_on: bool)
         violations: std::mem::take(&mut w.violations),
         stats: std::mem::take(&mut w.stats),
         tape: std::mem::take(&mut w.tape.vals),
+        tape2: w.sched.as_mut().map(|t| std::mem::take(&mut t.vals)).unwrap_or_default(),
         entity_seed: w.tape.entity_seed,
         trace: std::mem::take(&mut w.trace),
         trace_hash: w.trace_hash,
@@ -197,49 +216,39 @@ pub fn run_one(scn: Scenario, tape: Tape, seed: u64, extra: u64, trace_on: bool)
 }
 
 fn run_seed(scn: Scenario, seed: u64, extra: u64, trace: bool) -> RunResult {
-    run_one(scn, Tape::generate(seed), seed, extra, trace)
+    run_one(scn, Tape::generate(seed), None, seed, extra, trace)
 }
 
-fn run_tape(scn: Scenario, vals: &[u32], entity_seed: u64, seed: u64, extra: u64, trace: bool) -> RunResult {
-    run_one(scn, Tape::replay(vals.to_vec(), entity_seed), seed, extra, trace)
+fn run_tape(scn: Scenario, vals: &[u32], vals2: &[u32], entity_seed: u64, seed: u64, extra: u64, trace: bool) -> RunResult {
+    run_one(scn, Tape::replay(vals.to_vec(), entity_seed), Some(vals2.to_vec()), seed, extra, trace)
 }
 
-/// Shrink the tape while a violation with the same signature persists.
-fn minimise(scn: Scenario, sig: &str, vals: Vec<u32>, entity_seed: u64, seed: u64, extra: u64) -> (Vec<u32>, u64) {
-    let fails = |v: &[u32], es: u64| -> bool { run_tape(scn, v, es, seed, extra, false).violations.iter().any(|x| x.sig == sig) };
-    let mut cur = vals;
-    let mut es = entity_seed;
-    if !fails(&cur, es) {
-        return (cur, es);
-    }
-    let mut budget = 1500i32;
-    if es != 0 && fails(&cur, 0) {
-        es = 0;
-    }
+/// Delta-debug one vector while `fails` holds.
+fn shrink(cur: &mut Vec<u32>, budget: &mut i32, fails: &dyn Fn(&[u32]) -> bool) {
     // 1. shortest failing prefix (exhausted tape = benign choices)
     let (mut lo, mut hi) = (0usize, cur.len());
-    while lo < hi && budget > 0 {
+    while lo < hi && *budget > 0 {
         let mid = (lo + hi) / 2;
-        budget -= 1;
-        if fails(&cur[..mid], es) {
+        *budget -= 1;
+        if fails(&cur[..mid]) {
             hi = mid;
         } else {
             lo = mid + 1;
         }
     }
-    if hi < cur.len() && fails(&cur[..hi], es) {
+    if hi < cur.len() && fails(&cur[..hi]) {
         cur.truncate(hi);
     }
     // 2. delete blocks
     let mut block = (cur.len() / 2).max(1);
-    while block >= 1 && budget > 0 {
+    while block >= 1 && *budget > 0 {
         let mut i = 0;
-        while i + block <= cur.len() && budget > 0 {
+        while i + block <= cur.len() && *budget > 0 {
             let mut cand = cur.clone();
             cand.drain(i..i + block);
-            budget -= 1;
-            if fails(&cand, es) {
-                cur = cand;
+            *budget -= 1;
+            if fails(&cand) {
+                *cur = cand;
             } else {
                 i += block;
             }
@@ -251,15 +260,15 @@ fn minimise(scn: Scenario, sig: &str, vals: Vec<u32>, entity_seed: u64, seed: u6
     }
     // 3. zero / lower entries
     let mut i = 0;
-    while i < cur.len() && budget > 0 {
+    while i < cur.len() && *budget > 0 {
         if cur[i] != 0 {
             let old = cur[i];
             cur[i] = 0;
-            budget -= 1;
-            if !fails(&cur, es) {
+            *budget -= 1;
+            if !fails(cur) {
                 cur[i] = old / 2;
-                budget -= 1;
-                if old / 2 == old || !fails(&cur, es) {
+                *budget -= 1;
+                if old / 2 == old || !fails(cur) {
                     cur[i] = old;
                 }
             }
@@ -269,7 +278,29 @@ fn minimise(scn: Scenario, sig: &str, vals: Vec<u32>, entity_seed: u64, seed: u6
     while cur.last() == Some(&0) {
         cur.pop();
     }
-    (cur, es)
+}
+
+/// Shrink the tapes while a violation with the same signature persists.
+fn minimise(scn: Scenario, sig: &str, vals: Vec<u32>, vals2: Vec<u32>, entity_seed: u64, seed: u64, extra: u64) -> (Vec<u32>, Vec<u32>, u64) {
+    let fails = |v: &[u32], v2: &[u32], es: u64| -> bool { run_tape(scn, v, v2, es, seed, extra, false).violations.iter().any(|x| x.sig == sig) };
+    let mut cur = vals;
+    let mut cur2 = vals2;
+    let mut es = entity_seed;
+    if !fails(&cur, &cur2, es) {
+        return (cur, cur2, es);
+    }
+    let mut budget = 2000i32;
+    if es != 0 && fails(&cur, &cur2, 0) {
+        es = 0;
+    }
+    // the schedule first (fewer faults), then the program
+    if !cur2.is_empty() {
+        let c1 = cur.clone();
+        shrink(&mut cur2, &mut budget, &|v2: &[u32]| fails(&c1, v2, es));
+    }
+    let c2 = cur2.clone();
+    shrink(&mut cur, &mut budget, &|v: &[u32]| fails(v, &c2, es));
+    (cur, cur2, es)
 }
 
 fn repo_rev() -> String {
@@ -285,7 +316,7 @@ fn verif_dir() -> String {
     std::env::var("VERIF_DIR").unwrap_or_else(|_| "/verif".to_string())
 }
 
-fn write_replay(prop: &str, scn: Scenario, seed: u64, extra: u64, v: &Violation, tape: &[u32], es: u64, trace: &[String], cfg: &str) -> String {
+fn write_replay(prop: &str, scn: Scenario, seed: u64, extra: u64, v: &Violation, tape: &[u32], tape2: &[u32], es: u64, trace: &[String], cfg: &str) -> String {
     let h = util::fnv(v.sig.as_bytes());
     let dir = format!("{}/replays", verif_dir());
     let _ = std::fs::create_dir_all(&dir);
@@ -299,6 +330,7 @@ fn write_replay(prop: &str, scn: Scenario, seed: u64, extra: u64, v: &Violation,
         "extra": extra,
         "entity_seed": es,
         "tape": tape,
+        "tape2": tape2,
         "config": cfg,
         "repo_rev": repo_rev(),
         "trace": trace,
@@ -522,13 +554,13 @@ fn check(prop: &str, tier: &str, seed: u64) -> i32 {
         }
         // reproduce + minimise
         let first = run_seed(*scn, *s, *extra, false);
-        let (tape, es) = minimise(*scn, sig, first.tape.clone(), first.entity_seed, *s, *extra);
-        let rep = run_tape(*scn, &tape, es, *s, *extra, true);
+        let (tape, tape2, es) = minimise(*scn, sig, first.tape.clone(), first.tape2.clone(), first.entity_seed, *s, *extra);
+        let rep = run_tape(*scn, &tape, &tape2, es, *s, *extra, true);
         let Some(vv) = rep.violations.iter().find(|x| x.sig == *sig) else {
             eprintln!("HARNESS-ERROR minimised run for {sig} does not reproduce (scenario {} seed {s})", scn.name());
             return 2;
         };
-        let path = write_replay(prop, *scn, *s, *extra, vv, &tape, es, &rep.trace, &rep.cfg_summary);
+        let path = write_replay(prop, *scn, *s, *extra, vv, &tape, &tape2, es, &rep.trace, &rep.cfg_summary);
         // replay the file in a fresh process: it must fail the same way
         let exe = std::env::current_exe().unwrap();
         let out = std::process::Command::new(exe).args(["replay", &path]).output();
@@ -538,7 +570,7 @@ fn check(prop: &str, tier: &str, seed: u64) -> i32 {
             return 2;
         }
         println!("VIOLATION property={} replay={}", prop, path);
-        println!("  signature: {}  ({} of {} runs; minimised tape {} entries)", sig, count, agg.runs, tape.len());
+        println!("  signature: {}  ({} of {} runs; minimised tape {}+{} entries)", sig, count, agg.runs, tape.len(), tape2.len());
         println!("  {}", v.detail);
         let _ = v;
         new_viol.push(json!({"signature": sig, "runs": count, "replay": path, "detail": vv.detail}));
@@ -651,12 +683,13 @@ fn replay(path: &str) -> i32 {
         return 2;
     };
     let tape: Vec<u32> = j["tape"].as_array().map(|a| a.iter().map(|v| v.as_u64().unwrap_or(0) as u32).collect()).unwrap_or_default();
+    let tape2: Vec<u32> = j["tape2"].as_array().map(|a| a.iter().map(|v| v.as_u64().unwrap_or(0) as u32).collect()).unwrap_or_default();
     let es = j["entity_seed"].as_u64().unwrap_or(0);
     let seed = j["seed"].as_u64().unwrap_or(0);
     let extra = j["extra"].as_u64().unwrap_or(0);
     let sig = j["signature"].as_str().unwrap_or("").to_string();
     let prop = j["property"].as_str().unwrap_or("").to_string();
-    let r = run_tape(scn, &tape, es, seed, extra, true);
+    let r = run_tape(scn, &tape, &tape2, es, seed, extra, true);
     if std::env::var("VERIF_TRACE").is_ok() {
         for l in &r.trace {
             println!("{l}");
@@ -693,7 +726,7 @@ fn selftest(n: u64, seed: u64) -> i32 {
             let extra = i;
             let a = run_seed(*scn, s, extra, true);
             let b = run_seed(*scn, s, extra, true);
-            let c = run_tape(*scn, &a.tape, a.entity_seed, s, extra, true);
+            let c = run_tape(*scn, &a.tape, &a.tape2, a.entity_seed, s, extra, true);
             total += 1;
             let ha = util::fnv(a.trace.join("\n").as_bytes());
             let hb = util::fnv(b.trace.join("\n").as_bytes());
